@@ -174,6 +174,12 @@ def relevant(prop, fields, a, b, opline=""):
             # same contents but another total / other sizes
             ob = _items(b.get("ord"))
             return ob is not None and [x.split(":")[:5] for x in oa] == [x.split(":")[:5] for x in ob] and bool(set(fields) & {"cur", "rs", "ord"})
+        if prop == "C04" and op_name(opline) in ("ins", "tins") and set(fields) <= {"ret", "h", "hs", "ev"}:
+            # the map is concerned when acceptance or the value handed back differs; *which* rejection an
+            # insertion that both sides reject is classified as is C10's subject
+            ra, rb = a.get("ret", ""), b.get("ret", "")
+            if ra[:2] in ("T.", "E.") and rb[:2] in ("T.", "E."):
+                return False
         if prop == "C06":
             # exactly-once: with the same contents afterwards, other drop events or another owned return value;
             # when the contents differ, *which* objects left is the business of C03/C04/C11/C15 and the token
@@ -579,7 +585,7 @@ def compare(ctx, res):
         if obs[i] == pred[i]:
             if ops[i].endswith(" f") or " f |" in ops[i]:
                 forget_seq = forget_seq or (" it " in ops[i])
-            if "!" in ops[i]:
+            if "!" in ops[i] and " st=panic " in obs[i]:
                 panic_seq = True
             continue
         if is_full and was_lost:
@@ -635,6 +641,13 @@ def compare(ctx, res):
         # after a forgotten iterator / an injected panic only structural fields speak about C17 / C16
         # (what later operations return is the business of their own properties); the scenario
         # line itself is tagged by line_props
+        if "!" in ops[i].split(" | ")[0]:
+            if a.get("st") == "panic" or b.get("st") == "panic":
+                panic_seq = True
+            else:
+                # a panic directive that never fired (the operation makes fewer callbacks of that kind): an ordinary
+                # line — C16 is concerned only through the structural rule below, if a panic fired earlier
+                props.discard("C16")
         structural = {"WALKERR", "st", "lb", "len"}
         if forget_seq and structural & set(fields):
             props.add("C17")
